@@ -56,6 +56,8 @@ def run(ctx):
     c_end_marker(ctx, tok, push)
     c_end_in_buffering(ctx, end, proc)
     c_prefix_remainder(ctx, push)
+    c_reentry_clean(ctx, push)
+    a_buffer_remainder_raw(ctx, cls)
 
 
 def a_buffered_matching(ctx, push, proc):
@@ -146,6 +148,25 @@ def b_stop_before_flush(ctx):
                       "`%s.stop = ...` comes after `disable_buffering()`: the flush delivers the buffered text uncut, so text behind the closing quote reaches the user when the "
                       "whole line was already buffered, and does not when it arrives later - the stream depends on the tokenisation" % src(f_.func.value), line=f_.lineno)
     ctx.floor("C18.b.stop-before-flush", GEN1, "flushes of a buffered streaming handler that gets a stop sequence", n, 1)
+    # the same for the destination: text flushed before the handler is piped to the main one goes to the inner handler's own queue and is never streamed
+    m = 0
+    for fn in [f for f in ast.walk(t) if isinstance(f, (ast.FunctionDef, ast.AsyncFunctionDef))]:
+        pipes = [c for c in walk_no_nested(fn) if isinstance(c, ast.Call) and isinstance(c.func, ast.Attribute) and c.func.attr == "set_pipe_to"]
+        flush = [c for c in walk_no_nested(fn) if isinstance(c, ast.Call) and isinstance(c.func, ast.Attribute) and c.func.attr == "disable_buffering"]
+        if not pipes or not flush:
+            continue
+        cfg = CFG(fn)
+        for f_ in flush:
+            pn = [cfg.node_of(c) for c in pipes if src(c.func.value) == src(f_.func.value)]
+            if not pn:
+                continue
+            m += 1
+            ok = cfg.must_pass(cfg.entry, cfg.node_of(f_), pn)
+            ctx.check("C18.b.pipe-before-flush", GEN1, fn.name, "%s.disable_buffering()" % src(f_.func.value), ok,
+                      "the handler is piped to the main handler before the buffered text is flushed" if ok else
+                      "`%s.set_pipe_to(...)` comes after `disable_buffering()`: the flush delivers the buffered beginning of the message into the inner handler's own queue, so it is "
+                      "missing from the stream whenever it was already buffered (coarse tokens) and present when it arrives later" % src(f_.func.value), line=f_.lineno)
+    ctx.floor("C18.b.pipe-before-flush", GEN1, "flushes of a buffered streaming handler that is piped to another one", m, 1)
 
 
 def c_end_marker(ctx, tok, push):
@@ -197,3 +218,75 @@ def c_prefix_remainder(ctx, push):
                   "the remainder is fed back through push_chunk (suffix / stop handling applies)" if not direct else
                   "`%s` forwards the remainder straight to _process: a suffix or stop sequence contained in the token that completes the prefix is not removed (a one-token answer "
                   "keeps its closing quote; with a stop sequence the stream and `completion` differ)" % first_line(direct[0], 50), line=(direct[0].lineno if direct else i.lineno))
+
+
+def _clears_current(stmt):
+    """statement stores "" into self.current_chunk (plain or as one member of a tuple assignment)"""
+    if not isinstance(stmt, ast.Assign):
+        return False
+    for tg in stmt.targets:
+        if src(tg) == "self.current_chunk" and isinstance(stmt.value, ast.Constant) and stmt.value.value == "":
+            return True
+        if isinstance(tg, ast.Tuple) and isinstance(stmt.value, ast.Tuple) and len(tg.elts) == len(stmt.value.elts):
+            for a, b in zip(tg.elts, stmt.value.elts):
+                if src(a) == "self.current_chunk" and isinstance(b, ast.Constant) and b.value == "":
+                    return True
+    return False
+
+
+def c_reentry_clean(ctx, push):
+    """push_chunk appends the incoming text to `current_chunk`.  A call of push_chunk from inside push_chunk (the remainder behind the prefix) therefore has to find
+    `current_chunk` EMPTY: otherwise the remainder is appended to itself and delivered twice (or held back and wiped) - only for tokenisations in which the token that
+    completes the prefix carries more text."""
+    cfg = CFG(push)
+    re_ = [n for n in cfg.nodes if n.ast is not None and any(isinstance(c, ast.Call) and src(c.func) == "self.push_chunk" for c in walk_no_nested(n.ast))]
+    clears = [n for n in cfg.nodes if n.kind == "stmt" and _clears_current(n.ast)]
+    stores = [n for n in cfg.nodes if n.kind == "stmt" and n not in clears and (
+        (isinstance(n.ast, ast.AugAssign) and src(n.ast.target) == "self.current_chunk") or
+        (isinstance(n.ast, ast.Assign) and any(src(x) == "self.current_chunk" for tg in n.ast.targets for x in ([tg] + (list(tg.elts) if isinstance(tg, ast.Tuple) else [])))))]
+    for r in re_:
+        ok = cfg.must_pass(cfg.entry, r, clears) and all(cfg.must_pass(s_, r, clears) for s_ in stores if r in cfg.reachable([s_]) and s_ is not r)
+        ctx.check("C18.c.reentry-clean", STREAM, "StreamingHandler.push_chunk", "current_chunk is empty when push_chunk re-enters itself", ok,
+                  "`current_chunk` is cleared on every path between its last store and the inner push_chunk call" if ok else
+                  "`%s` re-enters push_chunk while `current_chunk` still holds the text that is being passed: the inner call appends it again, so the remainder of the token that completes "
+                  "the prefix is delivered twice (or, ending with the suffix, held back and then wiped)" % first_line(r.ast, 50), line=r.line)
+    ctx.stat("push_chunk_reentries", len(re_))
+
+
+def a_buffer_remainder_raw(ctx, cls):
+    """wait_top_k_nonempty_lines hands out the first k counted lines and leaves the REST of the buffer for streaming.  The rest must be the raw tail of the buffer: if it is rebuilt
+    from the filtered lines, blank lines / '#' lines / the trailing newline that were already buffered vanish from the stream, while the same text arriving later is streamed intact."""
+    fn = _method(cls, "wait_top_k_nonempty_lines")
+    if fn is None:
+        raise AnalysisError("StreamingHandler.wait_top_k_nonempty_lines not found", anchor=STREAM + "::StreamingHandler.wait_top_k_nonempty_lines")
+    filtered = set()
+    for n in ast.walk(fn):
+        if isinstance(n, ast.Assign) and any(isinstance(c, (ast.ListComp, ast.GeneratorExp, ast.SetComp)) and any(g.ifs for g in c.generators) for c in ast.walk(n.value)) or \
+                isinstance(n, ast.Assign) and any(isinstance(c, ast.Call) and src(c.func) == "filter" for c in ast.walk(n.value)):
+            filtered |= {x.id for tg in n.targets for x in ast.walk(tg) if isinstance(x, ast.Name)}
+        if isinstance(n, ast.If):
+            for st in n.body + n.orelse:
+                for c in ast.walk(st):
+                    if isinstance(c, ast.Call) and isinstance(c.func, ast.Attribute) and c.func.attr in ("append", "extend", "add") and isinstance(c.func.value, ast.Name):
+                        filtered.add(c.func.value.id)
+    changed = True
+    while changed:
+        changed = False
+        for n in ast.walk(fn):
+            if isinstance(n, ast.Assign) and any(isinstance(x, ast.Name) and x.id in filtered for x in ast.walk(n.value)):
+                for tg in n.targets:
+                    for x in ast.walk(tg):
+                        if isinstance(x, ast.Name) and x.id not in filtered:
+                            filtered.add(x.id)
+                            changed = True
+    stores = [n for n in ast.walk(fn) if isinstance(n, ast.Assign) and any(src(tg) == "self.buffer" for tg in n.targets)]
+    ctx.floor("C18.a.buffer-remainder-raw", STREAM, "stores of the remaining buffer in wait_top_k_nonempty_lines", len(stores), 1)
+    for st in stores:
+        inline = any(isinstance(c, (ast.ListComp, ast.GeneratorExp)) and any(g.ifs for g in c.generators) for c in ast.walk(st.value))
+        used = sorted({x.id for x in ast.walk(st.value) if isinstance(x, ast.Name) and x.id in filtered and not any(
+            isinstance(p, ast.Slice) for p in _anc(x, st))})
+        ok = not used and not inline
+        ctx.check("C18.a.buffer-remainder-raw", STREAM, "StreamingHandler.wait_top_k_nonempty_lines", "the rest of the buffer is its raw tail", ok,
+                  "the text left in the buffer is built from the unfiltered lines" if ok else
+                  "the text left in the buffer is rebuilt from filtered lines (%s): blank lines, '#' lines and the newline already buffered disappear from the stream, the same text "
+                  "arriving after the hand-over is streamed intact" % (", ".join(used) or "comprehension with a condition"), line=st.lineno)
